@@ -322,6 +322,19 @@ def _rest(run, prog, eng, scan_, mem, tier="quick"):
                     detail = (f"the id taken at {a.loc} is in no datagram sent afterwards on this path ({len(sc)} sent): it is consumed "
                               "without a message - the next message to that subscriber skips an id")
                     break
+        # ... in the step in which it was taken: an await between taking an id and handing the datagram that carries it to the
+        # transport lets another notification round for the same subscriber take the next id and send first (ids leave out
+        # of order)
+        if ok and feasible and not p.truncated:
+            for a in ac:
+                carriers = [s_ for s_ in sc if s_.args and pos[id(s_)] > pos[id(a)] and contains(s_.args[0], lambda t, r=a.result: t == r)]
+                if carriers:
+                    gap = [e for e in p.events if e.kind == "await" and pos[id(a)] < pos[id(e)] < pos[id(carriers[0])]]
+                    if gap:
+                        ok = False
+                        detail = (f"the coroutine suspends ({gap[0].loc}) between taking a session id ({a.loc}) and sending the datagram that carries it: "
+                                  "a concurrent round for the same subscriber takes the next id and can reach the transport first")
+                        break
         run.ob("Q3", f"{ns.qual}:one-id-per-message[{len(builds)} event(s)]", ok, loc(ns), detail)
     run.floor("Q3-notify-paths", checked, 2)
 
